@@ -447,6 +447,10 @@ func (g *graph) addBranch(startNode string, branch *GraphBranch, skipData bool) 
 		}
 	}()
 
+	if branch == nil {
+		return errors.New("branch is nil")
+	}
+
 	if startNode == END {
 		return errors.New("END cannot be a start node")
 	}
